@@ -7,6 +7,7 @@
      K2  set_mask / remove / remove_move while a promotion group is in progress keep a stale cursor. *)
 From Coq Require Import NArith List Bool Permutation.
 From Chess Require Import base.Bits base.Types base.BitBoard model.Board model.MoveGen spec.IterSpec proofs.IterFacts.
+From Chess Require spec.Rules proofs.Reachable proofs.ReachableMore.
 Import ListNotations.
 Local Open Scope N_scope.
 
@@ -67,3 +68,14 @@ Print Assumptions C10_K2_set_mask_in_progress_refuted.
 Theorem C10_K2_remove_in_progress_refuted : ~ remove_statement.
 Proof. exact remove_in_progress_refuted. Qed.
 Print Assumptions C10_K2_remove_in_progress_refuted.
+
+(* "legal moves" in the property's sense: on every reachable board, generation restricted to a destination mask yields
+   exactly the moves that are legal under the rules of chess and land in the mask, each once *)
+Theorem C10_legals_masked_rules : forall b M m, Reachable.Reachable b ->
+  (In m (mg_drain (legals_masked_gen b M)) <-> In m (Rules.legal_moves (Board.abs b)) /\ mem M (m_dst m) = true).
+Proof. exact ReachableMore.legals_masked_rules. Qed.
+Print Assumptions C10_legals_masked_rules.
+
+Theorem C10_legals_masked_nodup : forall b M, Reachable.Reachable b -> NoDup (mg_drain (legals_masked_gen b M)).
+Proof. exact ReachableMore.legals_masked_nodup. Qed.
+Print Assumptions C10_legals_masked_nodup.
